@@ -17,35 +17,40 @@ def notes_for(prop, variant):
     return txt
 
 
+def evaluate(d):
+    base = os.path.join(HERE, 'seeded')
+    sd = os.path.join(base, d)
+    patch = os.path.join(sd, 'patch.diff')
+    applies = subprocess.run(['git', '-C', '/repo', 'apply', '--check', patch], capture_output=True).returncode == 0
+    fired = {}
+    if applies:
+        t = tempfile.mkdtemp(prefix='sa-seed-')
+        try:
+            shutil.copytree('/repo/sigtools', os.path.join(t, 'sigtools'), ignore=shutil.ignore_patterns('__pycache__', 'tests'))
+            subprocess.run(['patch', '-p1', '-s', '-d', t, '-i', patch], check=True, capture_output=True)
+            for p in ALL:
+                buf = io.StringIO()
+                code = run_property(p, t, 'quick', write_evidence=False, out=buf)
+                if code != 0:
+                    rules = sorted(set(l.split(' [VIOLATION]')[0].split()[-1] for l in buf.getvalue().splitlines() if '[VIOLATION]' in l))
+                    fired[p] = {'exit': code, 'rules': rules}
+        finally:
+            shutil.rmtree(t, ignore_errors=True)
+    return d, applies, fired
+
+
 def main():
+    from concurrent.futures import ProcessPoolExecutor
     base = os.path.join(HERE, 'seeded')
     rows = []
-    for d in sorted(os.listdir(base)):
+    dirs = [d for d in sorted(os.listdir(base)) if os.path.exists(os.path.join(base, d, 'patch.diff'))]
+    with ProcessPoolExecutor(16) as ex:
+        results = list(ex.map(evaluate, dirs))
+    for d, applies, fired in results:
         sd = os.path.join(base, d)
-        patch = os.path.join(sd, 'patch.diff')
-        if not os.path.exists(patch):
-            continue
         prop, variant = d.split('-')
-        applies = subprocess.run(['git', '-C', '/repo', 'apply', '--check', patch], capture_output=True).returncode == 0
-        fired = {}
-        if applies:
-            t = tempfile.mkdtemp(prefix='sa-seed-')
-            try:
-                shutil.copytree('/repo/sigtools', os.path.join(t, 'sigtools'), ignore=shutil.ignore_patterns('__pycache__'))
-                subprocess.run(['patch', '-p1', '-s', '-d', t, '-i', patch], check=True, capture_output=True)
-                for p in ALL:
-                    buf = io.StringIO()
-                    code = run_property(p, t, 'quick', write_evidence=False, out=buf)
-                    if code != 0:
-                        rules = sorted(set(l.split(' [VIOLATION]')[0].split()[-1] for l in buf.getvalue().splitlines() if '[VIOLATION]' in l))
-                        fired[p] = {'exit': code, 'rules': rules}
-            finally:
-                shutil.rmtree(t, ignore_errors=True)
         meta_path = os.path.join(sd, 'meta.json')
         old = json.load(open(meta_path)) if os.path.exists(meta_path) else {}
-        notes = notes_for(prop, variant)
-        if notes and not os.path.exists(os.path.join(sd, 'author_notes.md')):
-            open(os.path.join(sd, 'author_notes.md'), 'w').write(notes)
         suite = open(os.path.join(sd, 'suite.txt')).read().strip() if os.path.exists(os.path.join(sd, 'suite.txt')) else ''
         meta = {
             'id': d,
